@@ -19,7 +19,7 @@ def main(tier, args):
                                       "UBSAN_OPTIONS": "print_stacktrace=1:abort_on_error=1"}, log=log)
     vf.finish(PID, tier, res, t0,
               rule="three BFS explorations over ALL op histories on the real classes, canonical-state dedup, oracle after every op + ASan/UBSan. "
-                   "(a) Cabinet depth<=%d (search dealt out to %d processes by canonical state at depth 5; a state reached from two shares is counted twice): alloc, free(t)/update(t) for every token ever issued (stale included), clear, "
+                   "(a) Cabinet depth<=%d (search dealt out to %d processes by canonical state at depth 6; a state reached from two shares is counted twice): alloc, free(t)/update(t) for every token ever issued (stale included), clear, "
                    "foreach with removal (all/even/odd/next-to-visit/previously-visited/none), null-token free/update; after every op at(t) and "
                    "operator[] for every token ever issued, size(), pairwise distinct live tokens; state = last_id_, first_free_, count_, all cells "
                    "(id or free link), all tokens held with model status. "
